@@ -185,50 +185,7 @@ Proof.
     apply (P41_case_selector _ Hp).
 Qed.
 
-(* ---------- trees without `for name ; do` ---------- *)
-
-Fixpoint nosemi_cmd (c : cmd) : bool :=
-  match c with
-  | CSimple _ _ => true
-  | CCompound k _ => nosemi_compound k
-  | CFuncDef _ body _ => nosemi_compound body
-  end
-with nosemi_compound (k : compound) : bool :=
-  match k with
-  | KBrace l => nosemi_clist l
-  | KSubshell l => nosemi_clist l
-  | KFor _ m body => match m with ForSemiDo => false | _ => nosemi_clist body end
-  | KCase _ items => nosemi_items items
-  | KIf c t e => nosemi_clist c && nosemi_clist t && nosemi_else e
-  | KWhile c b => nosemi_clist c && nosemi_clist b
-  | KUntil c b => nosemi_clist c && nosemi_clist b
-  end
-with nosemi_else (e : elsepart) : bool :=
-  match e with
-  | ENone => true
-  | EElse l => nosemi_clist l
-  | EElif c t e' => nosemi_clist c && nosemi_clist t && nosemi_else e'
-  end
-with nosemi_items (i : caseitems) : bool :=
-  match i with
-  | CINil => true
-  | CILast _ _ _ body => nosemi_body body
-  | CICons _ _ _ body rest => nosemi_body body && nosemi_items rest
-  end
-with nosemi_body (b : cbody) : bool :=
-  match b with BNone => true | BSome l => nosemi_clist l end
-with nosemi_pipe (p : pipe) : bool :=
-  match p with PCmd c => nosemi_cmd c | PPipe p' c => nosemi_pipe p' && nosemi_cmd c end
-with nosemi_andor (a : andor) : bool :=
-  match a with
-  | AOne _ p => nosemi_pipe p
-  | AAnd a' _ p => nosemi_andor a' && nosemi_pipe p
-  | AOr a' _ p => nosemi_andor a' && nosemi_pipe p
-  end
-with nosemi_seq (q : seq) : bool :=
-  match q with QOne a => nosemi_andor a | QSeq q' _ a => nosemi_seq q' && nosemi_andor a end
-with nosemi_clist (l : clist) : bool :=
-  match l with CL q _ => nosemi_seq q end.
+(* ---------- induction over the nine mutually inductive types ---------- *)
 
 Scheme cmd_mut := Induction for cmd Sort Prop
   with compound_mut := Induction for compound Sort Prop
